@@ -23,7 +23,7 @@ import collections
 from mc import statex
 from mc import c20_model as m
 
-BUDGET = {'quick': 240, 'thorough': 540}
+BUDGET = {'quick': 240, 'thorough': 900}
 HASH_INSENSITIVE = True
 
 A, B = 'p.app', 'p.app2'
